@@ -111,8 +111,19 @@ func FormatDiagnostic(source *SourceCode, diagnostic *Diagnostic) string {
 	return fmt.Sprintf("pos(%d, %d) %s(%d) %s", loc.Line, loc.Column, category, diagnostic.Code, diagnostic.MessageText)
 }
 
+// numberContext is decimal128 arithmetic - 34 significant digits, ties to even - over the decimal
+// library's whole exponent range. Literals and quotients already carried any exponent, while sums,
+// products and negations overflowed to infinity at 1e6145 and lost digits below 1e-6143, so that
+// 1e4000 * 1e4000 / 1e7999 was infinity and -1e7000 < -1e6999 false.
+var numberContext = decimal.Context{
+	Precision:     decimal.Context128.Precision,
+	RoundingMode:  decimal.Context128.RoundingMode,
+	OperatingMode: decimal.Context128.OperatingMode,
+	Traps:         decimal.Context128.Traps,
+}
+
 func newDecimalBig() *decimal.Big {
-	return decimal.WithContext(decimal.Context128)
+	return decimal.WithContext(numberContext)
 }
 
 func stringsUniq(arr []string) []string {
